@@ -360,3 +360,64 @@ func compressTrace(t []string) string {
 	}
 	return strings.Join(p, ",")
 }
+
+// classify one read attempt: A accepted (no error anywhere), E constructor error, e error reported
+// by Error() after iterating, P panic
+func classify(z adapter.Zoo, data []byte) byte {
+	src := &source{data: data}
+	var rd adapter.Reader
+	open := guard(func() error {
+		var err error
+		rd, err = z.NewReader(src)
+		return err
+	})
+	if open == "panic" {
+		return 'P'
+	}
+	if open != "ok" {
+		return 'E'
+	}
+	res := byte('A')
+	func() {
+		defer func() {
+			if r := recover(); r != nil {
+				res = 'P'
+			}
+		}()
+		limit := int(rd.Rows()) + 3
+		for n := 0; n < limit && rd.Next(); n++ {
+			rec := z.NewRec()
+			rd.Scan(rec)
+		}
+		if rd.Error() != nil {
+			res = 'e'
+		}
+	}()
+	return res
+}
+
+func rle(classes []byte) string {
+	var p []string
+	for i := 0; i < len(classes); {
+		j := i
+		for j < len(classes) && classes[j] == classes[i] {
+			j++
+		}
+		p = append(p, fmt.Sprintf("%c%d", classes[i], j-i))
+		i = j
+	}
+	return strings.Join(p, ",")
+}
+
+func init() {
+	// zoo-read-prefixes <name> <filehex> -> run-length classes for prefix lengths 0..len-1
+	register("zoo-read-prefixes", func(a []string) string {
+		z := zoo(a[0])
+		data := unhex(a[1])
+		classes := make([]byte, len(data))
+		for n := 0; n < len(data); n++ {
+			classes[n] = classify(z, data[:n])
+		}
+		return rle(classes)
+	})
+}
